@@ -17,6 +17,7 @@ R09.8 a loop that climbs towards the root (`n = n.parent`) while its test adds n
 R09.9 the clade sets behind the tree distances are computed from the tree as it is NOW: TreeNode.subsets() writes its per-node scratch attribute ...
 R09.10 the tokeniser un-munges `_` only where an UNQUOTED label is completed (the writer quotes names to protect their underscores).
 R09.11 to_rich_dict keys edge attributes by node name only on a (copied) tree whose unnamed nodes were named.
+R09.14 name_unnamed_nodes knows every existing name before it hands out the first generated one.
 """
 
 from __future__ import annotations
@@ -566,7 +567,53 @@ def r09_13(chk):
     chk.floor("R09.13", 1, "unrooted")
 
 
+def r09_14(chk):
+    chk.rule("R09.14", "name_unnamed_nodes: a generated name is tested against ALL the names already in the tree -- the collection behind the `while <new> in <names>` test is filled from a complete traversal that finishes before the first name is assigned (filled on the way, a tip called node1 that comes later in the traversal is not yet known when the first unnamed node is reached: two nodes called node1, and to_rich_dict, which keys lengths by name, loses one)")
+    m = chk.repo.module(TREE)
+    q = "TreeNode.name_unnamed_nodes"
+    fn = m.func(q)
+    k = key(m, q, "names in use collected before the first assignment")
+    tests = [w.test for w in walk_no_nested(fn) if isinstance(w, ast.While) and isinstance(w.test, ast.Compare) and len(w.test.ops) == 1 and isinstance(w.test.ops[0], ast.In) and isinstance(w.test.comparators[0], ast.Name)]
+    if not tests:
+        # another freshness idiom (a not-in filter over a generator, say): not decided here
+        chk.unresolved("R09.14", k, m.loc(fn), "no `while <name> in <collection>` freshness loop")
+        chk.floor("R09.14", 0, "")
+        return
+    coll = tests[0].comparators[0].id
+
+    def stores_name(st):
+        return any(isinstance(x, (ast.Assign, ast.AugAssign)) and any(isinstance(t, ast.Attribute) and t.attr in ("name", "_name") for t in (x.targets if isinstance(x, ast.Assign) else [x.target])) for x in ast.walk(st))
+
+    def fills(st):
+        # the collection receives existing names: bound from / extended with something that reads `.name` or a *_names() query
+        for x in ast.walk(st):
+            src = None
+            if isinstance(x, ast.Assign) and any(isinstance(t, ast.Name) and t.id == coll for t in x.targets):
+                src = x.value
+            elif isinstance(x, ast.Call) and isinstance(x.func, ast.Attribute) and isinstance(x.func.value, ast.Name) and x.func.value.id == coll and x.func.attr in ("append", "add", "extend", "update"):
+                src = x
+            if src is not None and any((isinstance(y, ast.Attribute) and y.attr == "name") or (isinstance(y, ast.Call) and isinstance(y.func, ast.Attribute) and y.func.attr in ("get_node_names", "get_edge_names", "get_nodes_dict")) for y in ast.walk(src)):
+                return True
+        return False
+
+    body = [st for st in fn.body]
+    first_store = next((i for i, st in enumerate(body) if stores_name(st)), None)
+    if first_store is None:
+        raise AnalysisError(f"{q}: no statement assigns a node name")
+    pre = [st for st in body[:first_store] if fills(st)]
+    late = fills(body[first_store])
+    if pre and not late:
+        chk.ok("R09.14", k, m.loc(pre[0]), f"`{coll}` is filled from the whole tree before the loop that assigns names")
+    elif pre:
+        # also topped up inside the assigning loop: harmless (the complete set is already known)
+        chk.ok("R09.14", k, m.loc(pre[0]), f"`{coll}` is filled from the whole tree before the loop that assigns names (and topped up inside it)")
+    else:
+        chk.violation("R09.14", k, m.loc(body[first_store]), f"`{coll}` learns the existing names only inside the loop that hands out new ones: a node named like a generated name (node1, node2 ...) that is visited later is not seen, and two nodes end up with the same name")
+    chk.floor("R09.14", 1, "name_unnamed_nodes")
+
+
 def run(chk):
+    r09_14(chk)
     r09_13(chk)
     r09_12(chk)
     r09_11(chk)
